@@ -186,6 +186,12 @@ class Backtest(object):
                 x = Fraction(_trunc(after)) / self.price(a, t)
                 if _near_int(x) and x != 0:
                     raise Ambiguous('share truncation boundary')
+                # "allocation truncated toward zero": the library truncates the dollars first, then the shares.  Where
+                # the discarded fraction of a currency unit would pay for one more share, truncating only the shares
+                # gives another whole number and the documented rule does not choose between them
+                y = after / self.price(a, t)
+                if _trunc(y) != _trunc(x):
+                    raise Ambiguous('sub-unit remainder pays for another share')
                 out[a] = _trunc(x)
         return out
 
